@@ -454,6 +454,48 @@ def search(ctx):
                 if "@@SKIPPED-LINE-RAN@@" in text and stats["guard_violations"] < 4:
                     stats["guard_violations"] += 1
                     vios.insert(0, {"input": {"command": cmd, "cwd": "<scratch with guard.py: a string literal as a whole, a print when line 1 is skipped>"}, "observed": {"verdict": "allow", "stdout": text[:200]}, "required": "the interpreter ran text that is not the text Dippy analysed (first line skipped): never allow", "oracle": "analysed-text-is-run-text"})
+        # the encoding the interpreter reads the file in (PEP 263, asked of CPython's own tokenize.detect_encoding) must be one
+        # under which the UTF-8 text Dippy analysed is the program: cookies on line 1/2, behind separators that str.splitlines
+        # (but not the tokenizer) takes for line ends, with a payload only another codec reveals
+        import tokenize
+
+        ed = os.path.join(root, "enc")
+        os.makedirs(ed)
+        seps = ["", "", "\x0c", "\x0b", "\x1c", "\x1d", "\x1e", "\x85", "\u2028", "\u2029", "\r", "\x0c\x0c", " \t"]
+        cookies = ["# -*- coding: utf-7 -*-", "# coding: unicode_escape", "# coding=latin-1", "# vim: set fileencoding=cp1252 :", "# coding: utf-8", "# coding:UTF_8", "#coding=utf-16", "# coding: rot13", "# -*- coding: iso-8859-15 -*-", "# no cookie here"]
+        payload7 = "# " + "\nimport os\nos.system('true')\n".encode("utf-7").decode("ascii")
+        for i in range(ctx.scale(400, 8000) * (3 if ctx.broken else 1)):
+            ck = r.pick(cookies)
+            shape = r.randrange(5)
+            if shape == 0:
+                head = ck + "\n"
+            elif shape == 1:
+                head = r.pick(["#!/usr/bin/env python3", "# notes", ""]) + "\n" + ck + "\n"
+            elif shape == 2:
+                head = "# build notes" + r.pick(seps) + "page two\n" + ck + "\n"
+            elif shape == 3:
+                head = "#" + r.pick(seps) + r.pick(seps) + " " + ck.lstrip("# ") + "\n"
+            else:
+                head = r.pick(seps) + ck + "\n"
+            text = head + r.pick([payload7 + "\n", "# \\nimport os\\nos.system('true')\n", ""]) + "import math\nprint(math.pi)\n"
+            fp = os.path.join(ed, "e%d.py" % i)
+            with open(fp, "w", encoding="utf-8", newline="") as f:
+                f.write(text)
+            dec = analyze("python3 e%d.py" % i, Config(), Path(ed))
+            stats["evaluations"] += 1
+            stats["cookie_files:" + dec.action] += 1
+            if dec.action != "allow":
+                continue
+            try:
+                with open(fp, "rb") as f:
+                    enc = tokenize.detect_encoding(f.readline)[0]
+            except SyntaxError:
+                stats["cookie_interpreter_rejects"] += 1
+                continue
+            if enc.lower().replace("_", "-") not in ("utf-8", "utf-8-sig", "ascii", "us-ascii"):
+                stats["cookie_violations"] += 1
+                if stats["cookie_violations"] <= 3:
+                    vios.insert(0, {"input": {"command": "python3 e%d.py" % i, "script": text, "cwd": "<scratch>"}, "observed": {"verdict": "allow", "reason": dec.reason, "interpreter_encoding": enc}, "required": "the interpreter decodes this file as %s (tokenize.detect_encoding), Dippy analysed it as UTF-8: the analysed text is not the program - never allow" % enc, "oracle": "analysed-text-is-run-text(encoding)"})
     finally:
         shutil.rmtree(root, ignore_errors=True)
     return {"violations": vios, "evaluations": stats["evaluations"], "distinct_nontrivial": stats["executed"], "stats": dict(stats), "samples": samples, "oracle": "audit hook (PEP 578) vetoing file/process/network/ctypes/exec/compile/unlisted-import events in a child interpreter; marker commands"}
